@@ -1,5 +1,6 @@
 import CspuzModel.Model.ExprIO
 import CspuzModel.Spec.SugarSyntax
+import CspuzModel.Model.SugarJava
 import Driver.Core
 namespace Cspuz.Drv
 open Cspuz Cspuz.Sugar Cspuz.SugarSyntax
@@ -77,6 +78,27 @@ def outS : OpOut → Sexp
   | .raised e => .list [.atom "err", .atom e.name]
   | _ => .atom "?"
 
+/-- all assignments of the declared variables (first variable slowest) -/
+def allAsgsV : List SVar → List (List (SVar × Val))
+  | [] => [[]]
+  | v :: r =>
+    let rest := allAsgsV r
+    match v.decl with
+    | .bool => [false, true].flatMap fun b => rest.map fun t => (v, Val.b b) :: t
+    | .int lo hi => (List.range (hi - lo + 1).toNat).flatMap fun (k : Nat) => rest.map fun t => (v, Val.i (lo + (k : Int))) :: t
+
+def asgOfPairs (ps : List (SVar × Val)) : Asg :=
+  { b := fun id => match ps.find? (fun p => p.1.id == id && !p.1.isInt) with
+      | some (_, .b v) => v
+      | _ => false
+    i := fun id => match ps.find? (fun p => p.1.id == id && p.1.isInt) with
+      | some (_, .i v) => v
+      | _ => 0 }
+
+/-- `solveCSP()` by enumeration (first model in lexicographic order) -/
+def bruteOracle : SugarJava.Oracle := fun vars cs =>
+  ((allAsgsV vars).map asgOfPairs).find? fun σ => cs.all fun c => eval σ c == some (.b true)
+
 end C03
 
 open C03 in
@@ -130,6 +152,9 @@ def handleC03 : Sexp → Option Sexp
     let st : SolverState := { decls := ds, isKey := keys, cs := cs, sol := ds.map fun _ => none }
     let (st', out) := sugarSolve k (callOf pairs) st
     some (.list [outS out, .list (st'.sol.map valS)])
+  | .list [.atom "java-run", text] => do
+    let text ← str? text
+    some (codes (SugarJava.run bruteOracle text))
   | .list [.atom "sugar-table"] =>
     some (.list (Kind.all.map fun k => .list [.atom k.backendName, .ofBool k.native,
       .atom (match k.row with | some r => r.cls | none => "?"),
